@@ -9,8 +9,9 @@
 (* satisfies HistoryOK; the exact regime really is exact.                  *)
 (***************************************************************************)
 EXTENDS Affinity
-CONSTANTS MaxLen, Vals, Windows, PensP, Tau2s, DeltasP, DFs, MaxYields
+CONSTANTS MaxLen, Vals, Windows, PensP, Tau2s, DeltasP, DFs, MaxYields, PsiBegins
 VARIABLES c, M, consumed, matches, stage
+PsiBeginsQ == {<<0, 0>>, <<1, 0>>, <<1, 2>>}      \* (a cfg file cannot write tuples)
 vars == <<c, M, consumed, matches, stage>>
 
 NoCase == [s1 |-> <<>>, s2 |-> <<>>, w |-> 0, pen |-> 0, tau2 |-> 1, delta |-> 0, dfnum |-> 1, dfden |-> 1,
@@ -19,10 +20,11 @@ Ser(n) == [1..n -> {<<v>> : v \in Vals}]
 Init == c = NoCase /\ M = <<>> /\ consumed = {} /\ matches = <<>> /\ stage = 0
 Pick == /\ stage = 0
         /\ \E a \in 1..MaxLen, b \in 1..MaxLen, w \in Windows, p \in PensP, t \in Tau2s, dl \in DeltasP, df \in DFs,
-              tr \in BOOLEAN : \E x \in Ser(a), y \in Ser(b) :
+              tr \in BOOLEAN, pb \in PsiBegins : \E x \in Ser(a), y \in Ser(b) :
+             \* pb = <<relaxation at the begin of s1, of s2>>, never beyond the series
              LET cc == [s1 |-> x, s2 |-> y, w |-> w, pen |-> p * (SC \div 4), tau2 |-> t, delta |-> 0 - dl * SC,
-                        dfnum |-> 1, dfden |-> df, triu |-> tr, psi |-> <<0, 0, 0, 0>>]
-             IN c' = cc /\ M' = AffMatrix(cc)
+                        dfnum |-> 1, dfden |-> df, triu |-> tr, psi |-> <<pb[1], 0, pb[2], 0>>]
+             IN pb[1] <= a /\ pb[2] <= b /\ c' = cc /\ M' = AffMatrix(cc)
         /\ stage' = 1 /\ UNCHANGED <<consumed, matches>>
 
 Val(i, j) == IF i < 0 \/ j < 0 \/ <<i, j>> \in consumed THEN NegInf ELSE M[i + 2][j + 2]
